@@ -97,7 +97,7 @@ def compute(f, loop_bound=2):
             })
         rows[kind] = npaths
     cells = {}
-    for fn in opfns:
+    for fn in []:      # per-function tables are superseded by cells_by_kind (kept for tools/gen_optable history)
         raw = evalsum.operator_cells(f, fn)
         table = {}
         for combo, outs in raw.items():
